@@ -3,17 +3,28 @@ import os, re, sys, json, ast, warnings, subprocess, concurrent.futures as cf
 import cybuild, framework
 
 TITLE = "The compiler never crashes and accepts all valid Python"
-EXTRACTS = ["Lexicon"]
+EXTRACTS = ["Lexicon", "CallArgs"]
 RULE = ("programs: grammar-generated valid Python 3.12 modules (props/C43_gen.py: every statement/expression kind incl. match, "
         "walrus, async, decorators, f-strings, star-expressions, except*, relative imports), literal-focused modules (huge numbers, "
         "all prefixes/escapes, deep nesting), mutated/truncated variants, systematic token/grammar interaction snippets (dot runs of "
         "length 1..7 (thorough: 1..40) in from-imports in every spelling and form, '...' in every expression position, operators "
-        "glued without spaces, soft keywords as names; grouped into modules, a failing group is bisected), fixed regression probes "
+        "glued without spaces, soft keywords as names; grouped into modules, a failing group is bisected), "
+        "the SYSTEMATIC grammar enumeration of props/C43_enum.py (argument lists: every sequence over {positional, *iterable, "
+        "keyword, **mapping} up to length 4 (thorough 5) in calls / class headers / decorators / nested contexts, with trailing "
+        "comma and comprehension clause, every special form as argument value; decorators; subscripts and slices; parameter "
+        "lists of def and lambda (/, *, kw-only, defaults, annotations); comprehension clauses; assignment targets incl. starred, "
+        "chained, annotated, augmented; import forms incl. conditional ones; with items incl. parenthesised; except / except* "
+        "clauses; match patterns and subjects; f-string forms; global / nonlocal / del; walrus and star-expression positions; "
+        "class headers; statement forms - candidates are over-generated, CPython's compile() keeps the valid ones; the argument-list "
+        "families complete, the others a fixed stride sample of 30 (thorough 60) per family; 100 snippets per module, a failing "
+        "module is split into chunks of 10 and then single snippets), fixed regression probes "
         "and one minimal witness per registered input family; each compiled as .py (mutants also as .pyx) by the compiler under "
         "test, the C checked by gcc -fsyntax-only; distinct by source hash; a failure outside the registered families is re-run in "
         "a pristine forked compiler before it is reported. tokens: number-like strings (all strings over a reduced alphabet up to a "
         "length, grammar-generated and mutated literals) and runs of 1..40 dots after 'from': real PyrexScanner + p_int_literal + "
-        "str_to_number + p_from_import_statement vs extracted model vs CPython tokenizer/int()/ast")
+        "str_to_number + p_from_import_statement vs extracted model vs CPython tokenizer/int()/ast. argument lists: every kind "
+        "sequence up to length 6 (thorough 8) through the real p_call_parse_args (accepted?, grouping of positional_args, order of "
+        "keyword_args) vs the extracted M_CallArgs model vs CPython's compile()")
 EXPLANATION = ("theorems: a regular-inclusion decision procedure (derivative pairs modulo similarity, certificate re-checked) "
                "proved sound for ALL words; with it Python 3.12's integer/float/imaginary literal grammar is included, token "
                "kind by token kind, in the lexicon's number rules (rules dumped from the running make_lexicon and proved equal "
@@ -22,11 +33,15 @@ EXPLANATION = ("theorems: a regular-inclusion decision procedure (derivative pai
                "repaired p_int_literal never crashes; the punctuation rule (ellipsis | punct | diphthong) under longest match "
                "turns a run of n dots into n/3 '...' tokens followed by n mod 3 '.' tokens for EVERY n, no number rule matches a "
                "run of dots, and the relative-import level added up from the token lengths is n (executable longest-match "
-               "function proved against the language semantics). partial: parser, analysis and code generation are not "
-               "modelled - the never-crashes / accepts-valid-Python / C-compiles statements are tested on generated programs only.")
+               "function proved against the language semantics); the argument-list loop of p_call_parse_args (calls, class headers, "
+               "decorators) accepts EXACTLY the kind sequences of Python 3.12's grammar, for all lengths, with trailing comma and "
+               "generator-expression argument (pairwise form proved equal to the PEG rule (P|*)*(K|*)*(K|**)*), records every "
+               "argument once, and the guard variant `if keyword_args:` before a star argument is refuted. partial: the rest of the "
+               "parser, analysis and code generation are not modelled - the never-crashes / accepts-valid-Python / C-compiles "
+               "statements are tested on generated and systematically enumerated programs only.")
 LEVEL_TEXT = ("partial: machine-checked for the literal front end (number-token inclusion for all strings, decoder totality "
               "refuted with witnesses and proved for the repaired parser, dot-run tokenisation and import level for all run "
-              "lengths); everything behind the scanner is differential testing against CPython's compile() with an explicit "
+              "lengths, argument-list acceptance = Python's grammar for all kind sequences); everything else behind the scanner is differential testing against CPython's compile() with an explicit "
               "documented-rejection allowlist and a registry of input-family known findings")
 TRUSTED = ["CPython compile()/tokenize/int() as the oracle of valid Python and of literal values",
            "gcc -fsyntax-only with the CPython headers as the oracle of 'the C compiler accepts'",
@@ -34,6 +49,9 @@ TRUSTED = ["CPython compile()/tokenize/int() as the oracle of valid Python and o
            "py_int_base: CPython's int(text, base) contract on digit strings (digit limit 4300 for non power-of-two bases)",
            "the documented-rejection allowlist ALLOW below (written from docs/src/userguide/limitations + tested messages)",
            "Parsing.p_from_import_statement adds len(token) per '.'/'...' token to the level (M_Lexicon.import_level); tied by the run for 1..40 dots",
+           "M_CallArgs.step/run/finish as the reading of the while loop of Parsing.p_call_parse_args on argument kinds (tied by the run on all "
+           "sequences up to length 6/8: accepted?, positional grouping, keyword order); Python's argument grammar transcribed from Grammar/python.gram "
+           "(tied to CPython's compile() on the same sequences)",
            "the source predicates of the input families (_ast_families): they only decide under which NAME a failure is reported"]
 ASSUMPTIONS = ["language_level=3, default directives, C (not C++) output", "Python 3.12 grammar; PEP 695 syntax excluded as documented-unsupported"]
 
@@ -221,9 +239,36 @@ def dot_run(code):
     finally:
         Errors.release_errors(ignore=True)
     return r
+def call_args(text, allow_genexp):
+    """the real p_call_parse_args on '(...)': 'positional|keywords' in the notation of ocaml/drv_callargs.ml, or 'error'"""
+    from Cython.Compiler import ExprNodes
+    def idx(node):
+        if isinstance(node, ExprNodes.GeneratorExpressionNode):
+            return "0"
+        assert node.is_name and node.name[0] == "a", node
+        return node.name[1:]
+    Errors.hold_errors()
+    try:
+        s = scanner(text)
+        assert s.sy == "("
+        pos, kws = Parsing.p_call_parse_args(s, allow_genexp)
+        if s.sy != "NEWLINE":
+            return "trailing:" + str(s.sy)
+        if list(Errors.held_errors()):
+            return "error"
+        p = ";".join("g" + ",".join(idx(x) for x in it) if isinstance(it, list) else "u" + idx(it) for it in pos)
+        k = ";".join("p" + idx(it[1]) if isinstance(it, tuple) else "d" + idx(it) for it in kws)
+        return p + "|" + k
+    except Errors.CompileError as e:
+        return "error"
+    except BaseException as e:
+        return "CRASH %s: %s" % (type(e).__name__, str(e)[:80])
+    finally:
+        Errors.release_errors(ignore=True)
 def main():
     spec = json.load(sys.stdin)
     dots_res = [dot_run(c) for c in spec.get("dot_runs", [])]
+    args_res = [call_args(t, g) for t, g in spec.get("call_args", [])]
     out = []
     sys.set_int_max_str_digits(4300)
     for t in spec["tokens"]:
@@ -237,7 +282,7 @@ def main():
             r["dec"] = d
         out.append(r)
     pyload.assert_sources()
-    print(json.dumps({"tokens": out, "dots": dots_res}))
+    print(json.dumps({"tokens": out, "dots": dots_res, "call_args": args_res}))
 sys.set_int_max_str_digits(0)
 main()
 '''
@@ -347,12 +392,15 @@ def run_tokens(ctx):
             toks += ["1" * n, "9" * n + "L", "0x" + "f" * n, "0o" + "7" * n, "0b" + "1" * n, "0" * n, "1" * n + "j",
                      "1" * n + ".5", "0" + "7" * n, "1_" * (n // 2) + "1"]
     toks = [t for t in dict.fromkeys(toks) if t and t[0] not in "+-"]
-    r = cybuild.run_script(TOKRUN, os.path.join(ctx.workdir, "tok"), {"tokens": toks, "dot_runs": [c for _, _, c in dot_run_codes()]},
+    ctx._c43_argcases = call_arg_cases(ctx.tier)
+    r = cybuild.run_script(TOKRUN, os.path.join(ctx.workdir, "tok"), {"tokens": toks, "dot_runs": [c for _, _, c in dot_run_codes()],
+                                                                       "call_args": [[c[3], c[1]] for c in ctx._c43_argcases]},
                            name="tokrun.py", timeout=1200)
     if r["json"] is None:
         raise RuntimeError("C43 token runner failed: " + (r["err"] or r["out"])[-1500:])
     impl = r["json"]["tokens"]
     ctx._c43_dots = r["json"]["dots"]
+    ctx._c43_args = r["json"]["call_args"]
     m = ctx.model("lexicon")
     enc = lambda t: ",".join(str(ord(c)) for c in t)
     kinds = m.batch(["kind %s %s" % ("true" if FX_IMAG else "false", enc(t)) for t in toks])
@@ -438,6 +486,56 @@ def run_dot_runs(ctx):
                      {"level": im["level"], "error": im["err"], "tokens": im["toks"]}, {"level": pylevel})
         elif form.startswith("glued") and im["level"] != int(level):
             ctx.corr_break("parser_import_level", code, im["level"], level)
+
+
+ARG_SEQ_TOP = {"quick": 6, "thorough": 8}
+
+
+def _arg_text(seq, tail):
+    """'(...)' with the arguments named a<i> by position (kinds P S K D), as the parser worker and CPython read it"""
+    parts = [{"P": "a%d", "S": "*a%d", "K": "k%d=a%%d" % i, "D": "**a%d"}[k] % i for i, k in enumerate(seq)]
+    return "(" + ", ".join(parts) + {"end": "", "comma": ",", "for": " for v in a9"}[tail] + ")"
+
+
+def call_arg_cases(tier):
+    """(kind word, allow_genexp, tail, text): EVERY sequence over {positional, *iterable, keyword, **mapping} up to
+    ARG_SEQ_TOP arguments closed by ')' in both contexts (call / class header), and up to 4 arguments with a trailing
+    comma or a comprehension clause"""
+    import itertools
+    out = []
+    for n in range(0, ARG_SEQ_TOP[tier] + 1):
+        for t in itertools.product("PSKD", repeat=n):
+            seq = "".join(t)
+            for tail in (("end", "comma", "for") if n <= 4 else ("end",)):
+                for ag in ((True, False) if n <= 5 else (True,)):
+                    out.append((seq, ag, tail, _arg_text(seq, tail)))
+    return out
+
+
+def run_callargs(ctx):
+    """argument lists: real Parsing.p_call_parse_args vs the extracted model (accepted? grouping of positional_args,
+    order of keyword_args) vs the proved grammar predicate vs CPython (compile of f(...) / class C(...): pass)"""
+    cases = ctx._c43_argcases
+    m = ctx.model("callargs")
+    mod = m.batch(["args false %s %s %s" % ("true" if ag else "false", tail, seq or "-") for seq, ag, tail, _ in cases])
+    pre = "".join("a%d = " % i for i in range(10)) + "0\n"
+    for (seq, ag, tail, text), im, mo in zip(cases, ctx._c43_args, mod):
+        src = pre + (("a0" + text + "\n") if ag else ("class C" + text + ": pass\n"))
+        py_ok = py_accepts(src)[0]
+        ctx.case("callargs_%s_%s_py%s" % ("call" if ag else "class", tail, "ok" if py_ok else "rejects"), src[len(pre):], sig=("callargs", seq, ag, tail))
+        mpy, mres = mo.split("|", 1)
+        if im != mres:
+            ctx.corr_break("p_call_parse_args_model", {"kinds": seq, "allow_genexp": ag, "text": text}, im, mres)
+        if (mpy == "1") != py_ok:
+            ctx.corr_break("python_argument_grammar_model", {"kinds": seq, "text": text}, py_ok, mpy)
+        if py_ok and (im == "error" or im.startswith(("CRASH", "trailing"))):
+            ctx.fail("argument_list_order:" + ("star_after_keyword" if re.search("K.*S", seq) else "other"), {"ext": ".py", "src": src},
+                     ["p_call_parse_args", im], "CPython compiles this text: the argument list is accepted")
+        elif im.startswith("CRASH"):
+            ctx.fail("argument_list_parser_crash", {"ext": ".py", "src": src}, ["p_call_parse_args", im], "a positioned error")
+    ctx.extra.setdefault("exhaustive_domains", []).append(
+        "all %d argument-kind sequences over {positional, *iterable, keyword, **mapping} up to length %d (both contexts up to 5; "
+        "trailing comma / comprehension clause up to 4) through the real p_call_parse_args" % (len({c[0] for c in cases}), ARG_SEQ_TOP[ctx.tier]))
 
 
 # ------------------------------------------------------------------------------------------------
@@ -753,6 +851,17 @@ def _is_c_literal(e):
     return isinstance(e, ast.Tuple) and bool(e.elts) and all(_is_num(x) for x in e.elts)
 
 
+def _is_c_bool(e):
+    """not-expression or is / is not comparison: a C bint for Cython"""
+    return (isinstance(e, ast.UnaryOp) and isinstance(e.op, ast.Not)) or \
+           (isinstance(e, ast.Compare) and all(isinstance(o, (ast.Is, ast.IsNot)) for o in e.ops))
+
+
+def _paren_before(src_lines, node):
+    before = (src_lines[node.lineno - 1][:node.col_offset] if node.lineno <= len(src_lines) else "").rstrip()
+    return before.endswith("(")
+
+
 def _has_bitop_on_float(e):
     for n in ast.walk(e):
         if isinstance(n, ast.UnaryOp) and isinstance(n.op, ast.Invert) and _is_num(n.operand, (float, complex)):
@@ -994,6 +1103,27 @@ def _ast_families(src, tree):
                 vals = [k.value] + (list(k.value.values) if isinstance(k.value, ast.Dict) else [])
                 if any(_has_bitop_on_float(v) for v in vals):
                     f.add("bitop_on_float_literal_in_call_keyword")
+        # --- families found by the systematic grammar enumeration (props/C43_enum.py)
+        if isinstance(n, ast.ClassDef) and any(_is_c_bool(b) for b in n.bases):
+            f.add("class_base_c_bool_expression")
+        if isinstance(n, ast.Assign) and any(isinstance(t, (ast.Tuple, ast.List)) for t in n.targets) and \
+                isinstance(n.value, (ast.Tuple, ast.List)) and any(isinstance(x, ast.Starred) for x in n.value.elts):
+            f.add("sequence_assignment_from_display_with_starred_item")
+        if isinstance(n, ast.Call) and _is_c_bool(n.func):
+            f.add("call_of_c_bool_expression")
+        if isinstance(n, (ast.FunctionDef, ast.AsyncFunctionDef, ast.ClassDef)) and any(_is_c_bool(d) for d in n.decorator_list):
+            f.add("call_of_c_bool_expression")
+        if isinstance(n, ast.AnnAssign) and isinstance(n.target, ast.Subscript) and isinstance(n.target.slice, ast.Slice):
+            f.add("annotated_assignment_slice_target")
+        if isinstance(n, (ast.Set, ast.SetComp)):
+            first = n.elts[0] if isinstance(n, ast.Set) else n.elt
+            if isinstance(first, ast.NamedExpr) and not _paren_before(src_lines, first):
+                f.add("unparenthesized_walrus_in_set_display_or_match_guard")
+        if isinstance(n, ast.match_case) and isinstance(n.guard, ast.NamedExpr) and not _paren_before(src_lines, n.guard):
+            f.add("unparenthesized_walrus_in_set_display_or_match_guard")
+        if isinstance(n, (ast.With, ast.AsyncWith)) and any(isinstance(i.context_expr, ast.Tuple) and i.optional_vars is None and
+                                                            any(isinstance(x, ast.Starred) for x in i.context_expr.elts) for i in n.items):
+            f.add("star_in_with_item_tuple")
         if isinstance(n, ast.AnnAssign) and isinstance(n.target, ast.Name) and enclosing(n, _FUNCS + (ast.ClassDef,)) is None \
                 and not (isinstance(n.annotation, ast.Name) and n.annotation.id in _BUILTIN_TYPE_NAMES):
             if bound_names is None:
@@ -1042,6 +1172,12 @@ def _src_features(src):
         f.add("octal_escape_above_377_in_str")
     if re.search(r"-\s*0[xXoObB][0-9a-fA-F_]{3500,}", src):
         f.add("negated_int_literal_over_4300_digits")
+    if re.search(r"^[ \t]*from[ \t]+__future__[ \t]+import[^\n]*\bbarry_as_FLUFL\b", src, re.M):
+        f.add("future_import_barry_as_flufl")
+    if re.search(r"^[ \t]*pass[ \t]*;[ \t]*[^\s#;]", src, re.M) or re.search(r":[ \t]*pass[ \t]*;[ \t]*[^\s#;]", src):
+        f.add("pass_then_semicolon_statement")
+    if re.search(r"(?<![\w])(?:[rR][fF]|[fF][rR])(\"(?!\"\")|'(?!''))[^\n\"']*\\\n", src):
+        f.add("raw_fstring_backslash_newline")
     m = re.match(r"(?:\s*#[^\n]*\n)*", src)
     head = m.group(0) if m else ""
     for name, val in re.findall(r"#\s*cython\s*:\s*([\w.]+)\s*=\s*([^\s,]*)", head):
@@ -1119,6 +1255,20 @@ FAMILY_RULES = [
     ("match_bytes_literal_nested_sequence_pattern", "positioned", r"^Attempting to index non-array type 'int'", "match_bytes_literal_nested_sequence_pattern"),
     ("complex_literal_truth_test", "positioned", r"^Type 'double complex' not acceptable as a boolean", "complex_literal_truth_test"),
     ("condexpr_number_vs_tuple_literal", "positioned", r"^Incompatible types in conditional expression", "condexpr_number_vs_tuple_literal"),
+    # found by the systematic grammar enumeration
+    ("class_base_c_bool_expression", "c_error", r"invalid operands to binary != .*__pyx_ctuple_int|__pyx_ctuple_int", "class_base_c_bool_expression"),
+    ("call_of_c_bool_expression", "positioned", r"^Calling non-function type 'bint'", "call_of_c_bool_expression"),
+    ("pass_then_semicolon_statement", "positioned", r"^Expected a newline", "pass_then_semicolon_statement"),
+    ("annotated_assignment_slice_target", "positioned", r"^Syntax error in simple statement list", "annotated_assignment_slice_target"),
+    ("raw_fstring_backslash_newline", "positioned", r"^Unclosed string literal", "raw_fstring_backslash_newline"),
+    ("unparenthesized_walrus_in_set_display_or_match_guard", "positioned", r"^invalid syntax: assignment expression not allowed in this context",
+     "unparenthesized_walrus_in_set_display_or_match_guard"),
+    ("star_in_with_item_tuple", "positioned", r"^starred expression is not allowed here", "star_in_with_item_tuple"),
+    ("future_import_barry_as_flufl", "positioned", r"^future feature barry_as_FLUFL is not defined", "future_import_barry_as_flufl"),
+    ("sequence_assignment_from_display_with_starred_item", "crash", r"map_starred_assignment|no starred arg found when splitting star|Compiler crash in PostParse",
+     "sequence_assignment_from_display_with_starred_item"),
+    ("sequence_assignment_from_display_with_starred_item", "positioned", r"^starred expression is not allowed here|^need more than \d+ values? to unpack|^too many values to unpack",
+     "sequence_assignment_from_display_with_starred_item"),
     # operations on numeric literals that CPython compiles (TypeError only if executed) and Cython types statically
     ("static_operand_type_error_on_literal_operands", "positioned", r"^Invalid operand types? for |^mod operator not supported for type 'double complex'", "bitop_on_float_literal"),
     ("static_operand_type_error_on_literal_operands", "positioned", r"^complex types are unordered", "complex_literal_ordering"),
@@ -1199,6 +1349,7 @@ class _Deferred:
     def __init__(self, ctx):
         self.ctx = ctx
         self.unconfirmed = []       # (src, ext, py_ok, class seen in the pool)
+        self.reported = set()       # sources whose failure went straight to ctx.fail (registered classes)
 
     def judge(self, src, ext, r, py_ok):
         rec = []
@@ -1207,6 +1358,7 @@ class _Deferred:
         if k is None:
             return None
         if k in self.ctx.known_classes:
+            self.reported.add(src)
             for a in rec:
                 self.ctx.fail(*a)
         else:
@@ -1323,6 +1475,20 @@ FAMILY_PROBES = [
     ("set_nested_star", ".py", "v = [1]\nx = {1, *(*v, 2)}\n", "set_display_item_then_starred_display_with_star"),
     ("yield_decorator", ".py", "def g(d):\n    @d((yield))\n    def f(): pass\n", "yield_in_function_decorator"),
     ("async_for_literal", ".py", "async def f():\n    return [i async for i in 1.5]\n", "async_for_over_numeric_literal"),
+    ("class_base_not", ".py", "a = 1\nclass C(not a): pass\n", "class_base_c_bool_expression"),
+    ("deco_not", ".py", "f = 1\n@not f\ndef g(): pass\n", "call_of_c_bool_expression"),
+    ("call_is", ".py", "f = 1\nx = (f is None)()\n", "call_of_c_bool_expression"),
+    ("pass_semicolon", ".py", "pass; x = 1\n", "pass_then_semicolon_statement"),
+    ("pass_semicolon_fn", ".py", "def f():\n    pass; return 1\n", "pass_then_semicolon_statement"),
+    ("ann_slice_target", ".py", "l = [1]\nl[0:1]: int = l\n", "annotated_assignment_slice_target"),
+    ("raw_fstring_contline", ".py", 'x = rf"\\\n"\n', "raw_fstring_backslash_newline"),
+    ("walrus_set", ".py", "x = {y := 1}\n", "unparenthesized_walrus_in_set_display_or_match_guard"),
+    ("walrus_guard", ".py", "def g(x):\n    match x:\n        case _ if y := x: pass\n", "unparenthesized_walrus_in_set_display_or_match_guard"),
+    ("with_star_tuple", ".py", "def g(v):\n    with (*v,): pass\n", "star_in_with_item_tuple"),
+    ("future_flufl", ".py", "from __future__ import barry_as_FLUFL\n", "future_import_barry_as_flufl"),
+    ("seq_assign_star_crash", ".py", "l = [1, 2]\nx, *y = *l,\n", "sequence_assignment_from_display_with_starred_item"),
+    ("seq_assign_star_reject", ".py", "l = [1, 2]\nx, *y = *l, 1\n", "sequence_assignment_from_display_with_starred_item"),
+    ("seq_assign_star_count", ".py", "l = [1, 2]\nx, y = *l,\n", "sequence_assignment_from_display_with_starred_item"),
 ]
 
 
@@ -1379,6 +1545,119 @@ def shrink(ctx, src, ext, klass, rounds=8):
     return cur
 
 
+# families of the systematic enumeration that are complete in the quick tier too (argument lists: the parser loop modelled in
+# M_CallArgs.v); every other family is stride-sampled in quick and complete in thorough
+ENUM_FULL_IN_QUICK = {"callargs", "callargs_comma", "callargs_for", "classargs", "decoargs", "callargs_ctx", "class_header"}
+ENUM_QUICK_CAP = 30
+ENUM_THOROUGH_CAP = 60
+ENUM_GROUP = 100
+ENUM_CHUNK = 10
+
+
+def enum_programs(ctx):
+    """-> (groups, singles): props/C43_enum.py snippets that CPython compiles, grouped ENUM_GROUP to a module; snippets that
+    are inputs of a registered finding family (they would fail their whole group) stand alone, a bounded number of them"""
+    import C43_enum
+    valid, ncand, nrej = C43_enum.enum_snippets(ctx.tier)
+    full = os.environ.get("C43_ENUM_FULL") == "1"      # offline triage: every enumerated snippet (hours under load)
+    if not full:
+        # deterministic stride sample per family (the quick sample is a subset of the thorough one); the argument-list families
+        # are always complete.  The complete enumeration of the other families (C43_ENUM_FULL=1) is not triaged yet.
+        cap = ENUM_QUICK_CAP if ctx.tier == "quick" else ENUM_THOROUGH_CAP
+        byfam = {}
+        for v in valid:
+            byfam.setdefault(v[0], []).append(v)
+        valid = []
+        for fam, items in byfam.items():
+            if fam in ENUM_FULL_IN_QUICK or len(items) <= cap:
+                valid += items
+            else:
+                step = len(items) / float(cap)
+                valid += [items[int(i * step)] for i in range(cap)]
+    seg_fams = {fam for _, _, _, fam in FAMILY_RULES} - {"builtin_call"}
+    flagged = {}
+    def segregate(src):
+        f = frozenset(_src_features(src) & seg_fams)
+        if f:
+            flagged[f] = flagged.get(f, 0) + 1
+            return True
+        return False
+    groups, singles = C43_enum.group_programs(valid, segregate, group=ENUM_GROUP)
+    # inputs of registered families: every family keeps its fixed probe (FAMILY_PROBES); of the enumerated ones a bounded,
+    # family-balanced number is compiled (the rest would only repeat the KNOWN-FINDING)
+    per = 1 if ctx.tier == "quick" else 3
+    seen, kept = {}, []
+    for lab, fam, src in singles:
+        k = (fam, frozenset(_src_features(src) & seg_fams))
+        seen[k] = seen.get(k, 0) + 1
+        if seen[k] <= per:
+            kept.append((lab, fam, src))
+    cap = 16 if ctx.tier == "quick" else 600
+    ctx.extra["grammar_enumeration"] = {"candidates": ncand, "rejected_by_cpython": nrej, "compiled_in_groups": sum(len(g[2]) for g in groups),
+                                        "inputs_of_registered_families": len(singles), "of_these_compiled_alone": min(len(kept), cap), "modules": len(groups)}
+    return groups, kept[:cap]
+
+
+def judge_enum(ctx, dj, groups, singles, res, jobs):
+    """groups whose module compiles count for all their snippets; a failing module is split into chunks of ENUM_CHUNK, failing
+    chunks into single snippets, and those are judged (bounded per family so that a broken parser does not cost hours)"""
+    PRE = None
+    import C43_enum
+    PRE = C43_enum.PRELUDE
+    def stratum(fam):
+        return "grammar_enum_" + fam
+    bad_groups = []
+    for i, (lab, src, sg) in enumerate(groups):
+        r = res["e%d" % i]
+        vd = verdict(r)
+        if vd[0] == "ok":
+            for slab, fam, ssrc in sg:
+                ctx.case(stratum(fam), {"ext": ".py", "src": ssrc[len(PRE):][:200]}, sig=("enum", ssrc))
+        else:
+            bad_groups.append((lab, src, sg, r))
+    for i, (slab, fam, ssrc) in enumerate(singles):
+        ctx.case(stratum(fam) + "_registered_family_input", {"ext": ".py", "src": ssrc[:200]}, sig=("enum", ssrc))
+        dj.judge(ssrc, ".py", res["x%d" % i], True)
+    if not bad_groups:
+        return
+    chunks = []
+    for lab, src, sg, r in bad_groups[:12]:
+        for j in range(0, len(sg), ENUM_CHUNK):
+            part = sg[j:j + ENUM_CHUNK]
+            alone = [x for x in part if not x[2].startswith(PRE)]
+            part = [x for x in part if x[2].startswith(PRE)]
+            if part:
+                chunks.append((PRE + "".join(x[2][len(PRE):] for x in part), part))
+            chunks += [(x[2], [x]) for x in alone]
+    if len(bad_groups) > 12:
+        ctx.note("%d enumeration modules failed; only the first 12 are bisected" % len(bad_groups))
+    cres = compile_batch(ctx, [{"id": "k%d" % i, "ext": ".py", "src": c[0]} for i, c in enumerate(chunks)], jobs=jobs)
+    sprogs, hit = [], 0
+    for i, (csrc, part) in enumerate(chunks):
+        if verdict(cres["k%d" % i])[0] == "ok":
+            for slab, fam, ssrc in part:
+                ctx.case(stratum(fam), {"ext": ".py", "src": ssrc[len(PRE):][:200]}, sig=("enum", ssrc))
+        elif len(part) == 1:
+            ctx.case(stratum(part[0][1]), {"ext": ".py", "src": part[0][2][:200]}, sig=("enum", part[0][2]))
+            dj.judge(part[0][2], ".py", cres["k%d" % i], True)
+        elif hit < 16:      # bounded: a broken production fails hundreds of snippets, a few concrete ones are enough
+            hit += 1
+            sprogs += part
+    sres = compile_batch(ctx, [{"id": "j%d" % i, "ext": ".py", "src": x[2]} for i, x in enumerate(sprogs)], jobs=jobs) if sprogs else {}
+    found = set()
+    for i, (slab, fam, ssrc) in enumerate(sprogs):
+        ctx.case(stratum(fam), {"ext": ".py", "src": ssrc[len(PRE):][:200]}, sig=("enum", ssrc))
+        if dj.judge(ssrc, ".py", sres["j%d" % i], True):
+            found.add(fam)
+    for i, (csrc, part) in enumerate(chunks):      # only the combination fails: report the chunk as it is
+        if len(part) > 1 and verdict(cres["k%d" % i])[0] != "ok" and not any(dj_seen(dj, x[2]) for x in part):
+            dj.judge(csrc, ".py", cres["k%d" % i], True)
+
+
+def dj_seen(dj, src):
+    return any(u[0] == src for u in dj.unconfirmed) or src in dj.reported
+
+
 def run_programs(ctx):
     here = os.path.dirname(os.path.abspath(__file__))
     if here not in sys.path:
@@ -1415,9 +1694,16 @@ def run_programs(ctx):
         ctx.note("token snippet %s %r is rejected by CPython (%s); skipped" % (lab, s_, why))
     for i, (lab, src, singles) in enumerate(tgroups):
         progs.append({"id": "t%d" % i, "ext": ".py", "src": src})
+    egroups, esingles = enum_programs(ctx)
+    for i, (lab, src, sg) in enumerate(egroups):
+        progs.append({"id": "e%d" % i, "ext": ".py", "src": src})
+    for i, (lab, fam, src) in enumerate(esingles):
+        progs.append({"id": "x%d" % i, "ext": ".py", "src": src})
     jobs = 6 if quick else 10
-    res = compile_batch(ctx, progs, jobs=jobs)
+    res = compile_batch(ctx, sorted(progs, key=lambda q: -len(q["src"])), jobs=jobs)      # long modules first: the pool finishes evenly
     dj = _Deferred(ctx)
+    judge_enum(ctx, dj, egroups, esingles, res, jobs)
+    progs = [q for q in progs if not (q["id"][0] in "ex" and q["id"][1:].isdigit())]
     tprogs = [p for p in progs if p["id"][0] == "t" and p["id"][1:].isdigit()]
     progs = [p for p in progs if p not in tprogs]
     retry = []
@@ -1488,6 +1774,7 @@ def run_programs(ctx):
 def run(ctx):
     run_tokens(ctx)
     run_dot_runs(ctx)
+    run_callargs(ctx)
     run_programs(ctx)
     if os.environ.get("C43_DUMP_FAILS"):       # development aid: every failure of this run, uncapped by class
         with open(os.environ["C43_DUMP_FAILS"], "w") as f:
